@@ -26,10 +26,15 @@ _env = None
 
 
 class Env:
-    def __init__(self):
+    def __init__(self, flavour="oidc"):
         from idpyoidc.server.oauth2.pushed_authorization import PushedAuthorization
-        self.s = opbase.make_op(more_endpoints={"pushed_authorization": {"path": "pushed_authorization", "class": PushedAuthorization,
-                                                                          "kwargs": {"client_authn_method": ["client_secret_post"], "ttl": 60}}})
+        more = {"pushed_authorization": {"path": "pushed_authorization", "class": PushedAuthorization,
+                                         "kwargs": {"client_authn_method": ["client_secret_post"], "ttl": 60}}}
+        if flavour == "oauth2":
+            # the plain OAuth2 authorization endpoint (the OIDC one runs the request-object step of its parent a second time)
+            from idpyoidc.server.oauth2.authorization import Authorization as OAuth2Authorization
+            more["authorization"] = {"path": "authorization", "class": OAuth2Authorization, "kwargs": {}}
+        self.s = opbase.make_op(more_endpoints=more)
         ctx = self.s.context
         self.kj = {"c_rs": build_keyjar([{"type": "RSA", "use": ["sig"]}, {"type": "EC", "crv": "P-256", "use": ["sig"]}]),
                    "c_es": build_keyjar([{"type": "EC", "crv": "P-256", "use": ["sig"]}, {"type": "RSA", "use": ["sig"]}]),
@@ -46,11 +51,13 @@ class Env:
         self.prov_algs = ctx.provider_info.get("request_object_signing_alg_values_supported") or []
 
 
-def env():
+def env(flavour="oidc"):
     global _env
     if _env is None:
-        _env = Env()
-    return _env
+        _env = {}
+    if flavour not in _env:
+        _env[flavour] = Env(flavour)
+    return _env[flavour]
 
 
 SIGNERS = ["own_rs", "own_es", "own_hs", "none", "foreign", "other_client"]
@@ -63,7 +70,8 @@ def cases(rng, tier):
         for signer in SIGNERS:
             for inner_cid in ("absent", "same", "other"):
                 for _ in range(n):
-                    out.append({"t": "jar", "client": cid, "signer": signer, "inner_cid": inner_cid, "conflict": rng.choice(["redirect_uri", "scope", "state", None])})
+                    out.append({"t": "jar", "fl": rng.choice(["oidc", "oidc", "oauth2"]), "client": cid, "signer": signer, "inner_cid": inner_cid,
+                                "conflict": rng.choice(["redirect_uri", "scope", "state", None])})
                     # claims that steer key selection / the checks made before verification: issuer, expiry, whose redirect_uri
                     out.append({"t": "jar", "client": cid, "signer": signer, "inner_cid": inner_cid, "conflict": None,
                                 "iss": rng.choice(["own", "other", "absent"]), "exp": rng.choice([None, "expired", "future"]),
@@ -79,7 +87,7 @@ def cases(rng, tier):
     for cid in ("c_rs", "c_es", "c_any"):
         for signer in SIGNERS:
             for inner_cid in ("absent", "same", "other"):
-                out.append({"t": "jarpar", "client": cid, "signer": signer, "inner_cid": inner_cid, "conflict": None,
+                out.append({"t": "jarpar", "fl": rng.choice(["oidc", "oauth2"]), "client": cid, "signer": signer, "inner_cid": inner_cid, "conflict": None,
                             "iss": rng.choice(["own", "own", "other", "absent"]), "exp": rng.choice([None, None, "expired", "future"]),
                             "inner_ruri": rng.choice(["own", "other"]) if inner_cid == "other" else "own"})
     for _ in range(40 * n):
@@ -152,7 +160,7 @@ def _object(E, c):
 
 
 def impl(c):
-    E = env()
+    E = env(c.get("fl", "oidc"))
     az = E.s.get_endpoint("authorization")
     if c["t"] == "jar":
         tok, alg, verifies, inner = _object(E, c)
@@ -173,16 +181,17 @@ def impl(c):
         clock.CLOCK.t = T0
         o = {"alg": alg, "verifies": verifies}
         try:
-            pr = par.parse_request(dict(client_id=cid, client_secret=E.s.context.cdb[cid]["client_secret"], redirect_uri=RED.format(cid), scope="openid",
-                                        state="outer-state", response_type="code", nonce="n", request=tok))
+            # outside the object only what must be there, with the values the object has: nothing for the conflict test to trip over
+            pr = par.parse_request(dict(client_id=cid, client_secret=E.s.context.cdb[cid]["client_secret"], redirect_uri=inner["redirect_uri"],
+                                        scope=inner["scope"], response_type="code", nonce="n", request=tok))
             if "error" in pr:
                 return dict(o, r="refused", how="push-error")
             urn = par.process_request(pr)["http_response"]["request_uri"]
         except Exception as e:
             return dict(o, r="refused", how="push:" + type(e).__name__)
         try:
-            pr = az.parse_request(AuthorizationRequest(client_id=cid, request_uri=urn, response_type="code", scope=["openid"], redirect_uri=RED.format(cid),
-                                                       nonce="n").to_dict())
+            pr = az.parse_request(AuthorizationRequest(client_id=cid, request_uri=urn, response_type="code", scope=inner["scope"].split(" "),
+                                                       redirect_uri=inner["redirect_uri"], nonce="n").to_dict())
         except Exception as e:
             return dict(o, r="refused", how="redeem:" + type(e).__name__)
         if "error" in pr:
@@ -226,7 +235,7 @@ def impl(c):
 
 
 def model_lines(c, obs):
-    E = env()
+    E = env(c.get("fl", "oidc"))
     if c["t"] in ("jar", "jarpar"):
         cid = c["client"]
         other = "c_es" if cid != "c_es" else "c_rs"
@@ -272,7 +281,7 @@ def compare(c, obs, outs):
 
 
 def oracle(c, obs):
-    E = env()
+    E = env(c.get("fl", "oidc"))
     v = []
     if c["t"] in ("jar", "jarpar"):
         if obs["r"] == "inner":
@@ -307,7 +316,7 @@ def known_key(c, v, known):
 
 def classify(c, obs):
     if c["t"] in ("jar", "jarpar"):
-        return f"{c['t']}:{obs['r']}"
+        return f"{c['t']}:{c.get('fl', 'oidc')}:{obs['r']}"
     return "par:" + ",".join(sorted({s[0] for s in obs["steps"]}))
 
 
